@@ -31,6 +31,73 @@ theorem parse_squote (args : List (List Char)) (h : ∀ x ∈ args, '\'' ∉ x) 
     simp
     exact List.dropLast_concat_getLast (by simp)
 
+/-- **Malformed input is reported**: a double-quoted argument whose closing quote is missing is an error,
+    whatever precedes it. -/
+theorem parse_unterminated (a : List Char) : parse ('"' :: esc a) = .error () := by
+  unfold parse
+  rw [run_cons]
+  have := run_inq_open a [] []
+  simp [step, this]
+
 example : (∀ x ∈ ["a b".toList, "c\"d\\".toList, []], '\'' ∉ x) := by decide
+
+
+/-! ## pkg-config style flag strings (`safesplit.SplitPkgConfigFlags`) -/
+
+/-- the round trip stated for EVERY flag list — false on the current code -/
+def SplitJoinFull : Prop := ∀ fs : List Flag, splitFlags (joinFlags fs) = fs.map Flag.bytes
+
+/-- a flag whose content ends in a backslash swallows the separator: `-Ia\\ -Ib` comes back as ONE flag `-Ia -Ib` -/
+theorem split_backslash_merges :
+    splitFlags (joinFlags [Flag.mk 73 [97, 92], Flag.mk 73 [98]]) = [[45, 73, 97, 32, 45, 73, 98]] := by
+  simp [splitFlags, joinFlags, Flag.render, escBlank, isBlank, skipSp, flagsLoop_cons2, flagsLoop_nil, readContent_cons, readContent_nil, push]
+  decide
+
+theorem split_join_counterexample_backslash : ¬ SplitJoinFull := by
+  intro h
+  have h1 := h [Flag.mk 73 [97, 92], Flag.mk 73 [98]]
+  rw [split_backslash_merges] at h1
+  revert h1; decide
+
+/-- an escaped trailing blank is trimmed away: `-Ia\\ ` comes back as `-Ia` -/
+theorem split_join_counterexample_trailing_blank :
+    splitFlags (joinFlags [Flag.mk 73 [97, 32]]) = [[45, 73, 97]] := by
+  simp [splitFlags, joinFlags, Flag.render, escBlank, isBlank, skipSp, flagsLoop_cons2, flagsLoop_nil, readContent_cons, readContent_nil, push]
+  decide
+
+/-- content starting with `-` is split off as a flag of its own: `-I-f` comes back as `-I`, `-f` -/
+theorem split_join_counterexample_leading_dash :
+    splitFlags (joinFlags [Flag.mk 73 [45, 102]]) = [[45, 73], [45, 102]] := by
+  simp [splitFlags, joinFlags, Flag.render, escBlank, isBlank, skipSp, flagsLoop_cons2, flagsLoop_nil, readContent_nil, push]
+  decide
+
+/-- **Round trip under the explicit decidable predicate `Flag.WF`** (content does not start with `-`, does not end
+    in `\`, and the flag does not end in white space): flags with blanks escaped as documented and joined by single
+    blanks are split back into exactly the original list — for every flag byte and every content, including
+    blanks, tabs, backslashes and non-ASCII bytes inside. -/
+theorem split_join_partial (fs : List Flag) (h : ∀ f ∈ fs, f.WF) :
+    splitFlags (joinFlags fs) = fs.map Flag.bytes := by
+  cases fs with
+  | nil => simp [splitFlags, joinFlags, skipSp, flagsLoop_nil, push]
+  | cons f fs =>
+    have hj : ∃ l, joinFlags (f :: fs) = 45 :: l := by
+      cases fs with
+      | nil => exact ⟨_, by simp only [joinFlags, Flag.render]; rfl⟩
+      | cons g gs => exact ⟨_, by simp only [joinFlags, Flag.render, List.cons_append]; rfl⟩
+    obtain ⟨l, hl⟩ := hj
+    unfold splitFlags
+    rw [hl, skipSp_nonblank 45 l isBlank_45, ← hl, flagsLoop_join fs f [] [] h]
+    simp [push]
+
+example : (∀ f ∈ [Flag.mk 73 [47, 97, 32, 98], Flag.mk 76 [], Flag.mk 45 [120]], f.WF) := by decide
+
+
+/-! ## build tags -/
+
+/-- `parseBuildTags` returns each tag once, and exactly the tags that occur in the `-tags` values -/
+theorem parseBuildTags_nodup (flags : List (List Char)) :
+    (parseBuildTags flags).Nodup ∧ ∀ t, t ∈ parseBuildTags flags ↔ t ∈ collectTags flags := by
+  have := dedup_spec (collectTags flags) []
+  exact ⟨this.1, fun t => by rw [parseBuildTags, this.2]; simp⟩
 
 end LlgoVerif.Shell
